@@ -413,8 +413,16 @@ def _compile_objects(
     # because it should not exist yet.
     # Copy the stdout verbose output of the build into the ready file
     fd = open(ready_name, "x")
-    fd.write(s)
-    fd.close()
+    try:
+        fd.write(s)
+        fd.close()
+    except Exception:
+        # Do not leave a ready file behind for a build that is reported as
+        # failed: other processes would load the module while the next
+        # request is rebuilding it
+        fd.close()
+        os.unlink(ready_name)
+        raise
 
     return code_body
 
